@@ -50,6 +50,13 @@ Get(heap, fid, n) == LET f == FindFrame(heap, fid, n) IN
 Set(heap, fid, n, v) == LET f == FindFrame(heap, fid, n) IN
                      IF f = 0 THEN heap
                      ELSE [heap EXCEPT ![f].vars[LookupF(heap[f].vars, n, 1)].v = v]
+\* 'x written inside quoted data (value kind qobj in the program) is the list (quote x).  Named deviation "quote-object"
+\* (open finding C01-F7): the implementation keeps what its reader makes of 'x, an object that is not a list.
+RECURSIVE NormQ(_, _)
+NormQ(v, dev) == IF v.k = "qobj" THEN (IF "quote-object" \in dev THEN [k |-> "qobj", v |-> NormQ(v.v, dev)]
+                                       ELSE [k |-> "list", v |-> <<[k |-> "sym", v |-> "quote"], NormQ(v.v, dev)>>])
+                 ELSE IF v.k = "list" THEN [k |-> "list", v |-> [i \in 1..Len(v.v) |-> NormQ(v.v[i], dev)]]
+                 ELSE v
 \* a function defined while the program runs, (defun name ...) evaluated as a form: the global frame binds the pseudo-variable
 \* "#f:<name>" to a closure over the environment the defun form is evaluated in; a later defun of the name replaces it
 DefGlobal(heap, n, v) == LET i == LookupF(heap[1].vars, n, 1) IN
@@ -145,7 +152,7 @@ MapStep(m1, fr, v) ==
 
 StepEval(m) ==
   LET n == m.node IN
-  CASE n.k = "lit" -> Ret(m, n.v)
+  CASE n.k = "lit" -> Ret(m, NormQ(n.v, m.dev))
     [] n.k = "var" -> LET v == Get(m.heap, m.env, n.n) IN IF v.k = "unbound" THEN Err(m, "unbound-variable") ELSE Ret(m, v)
     [] n.k = "setq" -> Ev(Push(m, [k |-> "setq", n |-> n.n, env |-> m.env]), n.e, m.env)
     [] n.k = "progn" -> IF Len(n.es) = 0 THEN Ret(m, Nil)
